@@ -37,6 +37,8 @@ def check(run):
     acc = vlib.accepted(run, exe, U, regex_extra=200 if quick else 1500, rnd=rnd, tokens=2 if quick else 3, tokens_cap=300 if quick else 1500)
     versions, part = check_c20.choose_versions(run, exe, U, acc, rnd, 10, 10)
     jobs = []; cliruns = []
+    uni = vlib.unicode_families(run, exe, acc, rnd, per_eco=3 if quick else 12, size=nmax)
+    run.extra["non_ascii_families"] = {e: len(uni[e]) for e in uni if uni[e]}
     nsets = 5 if quick else 25
     for e in ECOS:
         pool = versions[e]
@@ -61,6 +63,12 @@ def check(run):
             if n >= 2:
                 padded = [rnd.choice([" %s", "%s ", "\t%s", "%s\n", " %s ", "%s\r\n"]) % t if rnd.random() < 0.5 else t for t in items]
                 cliruns.append({"tag": "sort", "argv": [check_c15.codes(x) for x in [e, "sort"] + padded]})
+        # non-ASCII members (letters with irregular case mappings) next to their ASCII relatives: all permutations
+        for fam in uni.get(e, []):
+            items = fam[:nmax]
+            pp = permsN if len(items) == nmax else [list(p) for p in itertools.permutations(range(1, len(items) + 1))]
+            jobs.append({"k": "sortset", "eco": e, "items": items, "part": [vlib.part_of(e, t) for t in items], "perms": pp})
+            cliruns.append({"tag": "sort", "argv": [check_c15.codes(x) for x in [e, "sort"] + items[::-1]]})
         # multisets the pre-sample suggests are ordered inconsistently (generator heuristic; TLC judges the real sort)
         for trip in getattr(run, "suspects", {}).get(e, [])[:8]:
             items = trip + [rnd.choice(pool) for _ in range(2)]
